@@ -2,7 +2,7 @@
 """Development tool (not a registered command): behaviour-preserving refactorings of the anchored code, written by sub-agents that saw only
 the property text (stored under /verif/benign/<name>/patch.diff with the agent's equivalence argument in notes.md).  Each patch is applied
 to a scratch copy of /repo/include and every check is run on the copy: all must exit 0 (no alarm, no analysis-broken).
-usage: benign_recheck.py [name ...] [--props C01,C02]"""
+usage: benign_recheck.py [name ...] [--props C01,C02 | --auto]"""
 import os, shutil, subprocess, sys, tempfile
 from concurrent.futures import ThreadPoolExecutor
 V = os.path.dirname(os.path.dirname(os.path.abspath(__file__)))
@@ -26,16 +26,36 @@ def run_one(name, props):
     finally:
         shutil.rmtree(tmp, ignore_errors=True)
 
+def auto_props(name):
+    """The checks a patch can influence: those that load a fact unit whose emitted facts cover a touched file (a unit emits the functions of
+    the files under its `only` prefixes; a check decides from the facts of the units it loads and from nothing else), plus the patch's
+    own property.  units_loaded comes from the evidence the checks wrote for the unchanged tree."""
+    import json
+    sys.path.insert(0, V)
+    from jcsa import frontend as F
+    touched = [l[6:].strip() for l in open(os.path.join(V, 'benign', name, 'patch.diff')) if l.startswith('+++ b/')]
+    units = set(u for u, (drv, only) in F.UNITS.items() if any(o in t for t in touched for o in only))
+    props = set([name.split('-')[0]])
+    for p in ALL:
+        try: loaded = set(json.load(open(os.path.join(V, 'evidence', p + '.json')))['coverage'].get('units_loaded') or ALL_UNITS)
+        except Exception: loaded = units
+        if loaded & units: props.add(p)
+    return sorted(props)
+
+ALL_UNITS = ['core']
+
 def main():
     args = sys.argv[1:]
     props = ALL
+    auto = '--auto' in args
+    if auto: args.remove('--auto')
     if '--props' in args:
         i = args.index('--props'); props = args[i + 1].split(','); del args[i:i + 2]
     names = args or sorted(os.listdir(os.path.join(V, 'benign')))
     wrong = 0
     with ThreadPoolExecutor(max_workers=5) as ex:
-        for name, bad in ex.map(lambda n: run_one(n, props), names):
-            print('%-10s %s' % (name, 'OK' if not bad else 'ALARM'))
+        for name, bad, used in ex.map(lambda n: (lambda pp: run_one(n, pp) + (pp,))(auto_props(n) if auto else props), names):
+            print('%-10s %s%s' % (name, 'OK' if not bad else 'ALARM', ('   [' + ','.join(used) + ']') if auto else ''))
             for p, msg in bad:
                 print('    %s %s' % (p, msg))
             wrong += bool(bad)
